@@ -140,10 +140,8 @@ def newton_raphson(net, funct, mode, solver_vars, tols, pit_names, iter_name):
         results, residual, filtered = funct(net)
         residual_norm = np.max(np.abs(residual))
         logger.debug("residual: %s" % residual_norm.round(4))
-        pos = np.arange(len(solver_vars) * 2)
-        results = np.array(results, object)
-        vals_new = results[pos[::2]]
-        vals_old = results[pos[1::2]]
+        vals_new = results[0:len(solver_vars) * 2:2]
+        vals_old = results[1:len(solver_vars) * 2:2]
         for var, val_new, val_old in zip(solver_vars, vals_new, vals_old):
             dval = val_new - val_old
             errors[var].append(np.max(np.abs(dval)) if len(dval) else 0)
